@@ -6,6 +6,7 @@ O3  the de-duplication switch only switches the cache
 O4  sibling consistency of the xor-cancellation rewrites: the operand tested for cancellation is not the one returned
 O5  the folding table of optimize_and / optimize_xor (x&0, x&1, x&x, x^0, x^x) returns the right operand
 O7  and-absorption rewrites of push_and ((x1&x2)&(y1&y2) with a shared input, (x1&x2)&x1) keep every input of both operands
+O8  the dead-gate sweep has all roots (outputs, every field of the panic record) and follows every operand of every gate kind
 O6  `negated` records exactly (operand, new gate) and (new gate, operand) under the `== 1` test of the other operand
 """
 from .. import mir
@@ -519,5 +520,64 @@ def rule_o7(ctx):
     return res
 
 
+def rule_o8(ctx):
+    """The liveness sweep starts from every root and follows every operand (dropping one removes live gates)."""
+    res = RuleResult("O8", "the dead-gate sweep marks from all outputs, all panic-record fields and both operands of both gate kinds")
+    fid = "circuit::CircuitBuilder::remove_unused_gates"
+    body = ctx.body(fid)
+    pops = [(b, t) for b, t in body.calls() if mir.last_seg(mir.callee(t) or "") == "pop"]
+    if len(pops) != 1:
+        raise AnchorMissing("O8: remove_unused_gates no longer has one worklist pop (found %d)" % len(pops))
+    pb, pt = pops[0]
+    wl = {(r, tuple(p)) for (r, p) in body.trace_operand(pt["args"][0])}
+    lp = [l for l in body.loops() if pb in l["body"]]
+    if not lp:
+        raise AnchorMissing("O8: the worklist is not popped in a loop")
+    lp = min(lp, key=lambda l: len(l["body"]))
+    fed = set()
+    inloop = set()
+    for b, t in body.calls():
+        if mir.last_seg(mir.callee(t) or "") in ("push", "extend", "extend_from_slice", "append") and len(t["args"]) >= 2 and wl & {(r, tuple(p)) for (r, p) in body.trace_operand(t["args"][0])}:
+            for (r, p) in body.trace_operand(t["args"][1]):
+                (inloop if b in lp["body"] else fed).add((r, tuple(p)))
+    # roots: output gates (the argument the worklist is cloned from) and every field of the panic record
+    if any(r == ("arg", 2) for (r, p) in wl):
+        res.ok({"root": "output_gates", "verdict": "the worklist starts as a copy of the outputs"})
+    else:
+        res.bad(Finding("O8", fid, "outputs are not roots of the sweep", "the worklist does not start from the output gates", body.fn["sp"]))
+    rec = ctx.adt("circuit::PanicResult")
+    for f in rec["variants"][0]["fields"]:
+        if any(r == ("arg", 1) and p[-1:] == (f["name"],) and "panic_gates" in p for (r, p) in fed):
+            res.ok({"root": "panic record field %s" % f["name"], "verdict": "on the worklist before the loop"})
+        else:
+            res.bad(Finding("O8", fid, "panic record field %s is not a root of the sweep" % f["name"],
+                            "gates that only feed this field of the panic record are removed as dead: the reported panic is wrong or an index points past the end", body.fn["sp"]))
+    # an operand is followed whenever it is a gate that is not marked yet: no test on the *other* operand may guard its push
+    for b, t in body.calls():
+        if b in lp["body"] and mir.last_seg(mir.callee(t) or "") == "push" and len(t["args"]) == 2 and wl & {(r, tuple(p)) for (r, p) in body.trace_operand(t["args"][0])}:
+            mine = {p[-1] for (r, p) in body.trace_operand(t["args"][1]) if len(p) >= 2 and p[-2].startswith("as ")}
+            for x in lp["body"]:
+                tt = body.term(x)
+                if tt and tt["k"] == "switch" and tt["discr"]["k"] in ("copy", "move") and body.dominates(x, b) and x != b:
+                    # control dependence within one iteration: some successor cannot reach the push without going round the loop
+                    def it_succ(z):
+                        return [q for q in body.succs(z) if q in lp["body"] and q != lp["header"] and not body.blocks[q]["cleanup"]]
+                    if all(b == q or body.path(q, [b], succ=it_succ) for q in it_succ(x)) and len(it_succ(x)) == len([q for q in body.succs(x) if not body.blocks[q]["cleanup"]]):
+                        continue
+                    other = {p[-1] for (r, p) in body.deep_sources(tt["discr"], 4) if len(p) >= 2 and p[-2].startswith("as ") and r == ("arg", 1)}
+                    if other - mine:
+                        res.bad(Finding("O8", fid, "operand %s is followed only under a test of operand %s" % ("/".join(sorted(mine)), "/".join(sorted(other - mine))),
+                                        "whether the sweep continues into an operand must depend on that operand alone (is it a gate, is it marked)", tt["sp"]))
+    gate = ctx.adt("circuit::BuilderGate")
+    for v in gate["variants"]:
+        for i, f in enumerate(v["fields"]):
+            if any(len(p) >= 2 and p[-2] == "as " + v["name"] and p[-1] == str(i) for (r, p) in inloop):
+                res.ok({"operand": "%s.%d" % (v["name"], i), "verdict": "pushed onto the worklist"})
+            else:
+                res.bad(Finding("O8", fid, "operand %d of %s gates is never followed" % (i, v["name"]),
+                                "the sweep does not continue into this operand: gates feeding a live gate are removed", body.term(pb)["sp"]))
+    return res
+
+
 def run(ctx):
-    return ctx.run_rules([rule_o1, rule_o2, rule_o3, rule_o4, rule_o5, rule_o6, rule_o7])
+    return ctx.run_rules([rule_o1, rule_o2, rule_o3, rule_o4, rule_o5, rule_o6, rule_o7, rule_o8])
